@@ -415,6 +415,29 @@ func famSchema(tr *Trace, scratch string, seed int64, tier string, repo, nfpmBin
 		d["rpm"] = map[string]any{"compression": c}
 		probe("rpm.compression", c, d, []string{"rpm"})
 	}
+	// a compression spelled as a reference to the environment: if the parser expanded it and the packager built it, the
+	// document - as written - would have to validate
+	for _, f := range []string{"deb", "rpm"} {
+		d := base()
+		d[f] = map[string]any{"compression": "${VERIF_COMP}"}
+		y := docYAML(d)
+		cfg, perr := nfpm.ParseWithEnvMapping(strings.NewReader(y), func(k string) string {
+			if k == "VERIF_COMP" {
+				return "xz"
+			}
+			return ""
+		})
+		builds := perr == nil
+		if perr == nil {
+			if _, _, e := buildFormat(&cfg, f); e != nil {
+				builds = false
+			}
+		}
+		var errs []string
+		sd.validate(root, toJSONable(d), "$", &errs)
+		emit(M{"ev": "enumprobe", "setting": f + ".compression", "value": "${VERIF_COMP}", "parser_accepts": perr == nil, "builds": builds, "build_err": "", "schema_valid": len(errs) == 0,
+			"schema_err": safeStr(strings.Join(errs, "; ")), "cross": true})
+	}
 	cross = false
 	// keys the schema does not allow must not be accepted by the parser either - whichever way the document gets to it
 	{
